@@ -113,6 +113,17 @@ add("C12", "lifecycle-sim", "exploration",
     "Trusted: the simulator's own list of bus-attached groups (the documented behaviour of the pinned tree); Fortescue transformers are not "
     "generated.", "DESIGN.md section 4, C12")
 
+add("C10", "lifecycle-sim", "exploration",
+    "deterministic simulation: stock cases rebuilt through System.add in seeded device order with seeded index re-typing, seeded lifecycle (setup / power flow / reset / dynamic init / steps / snapshot restore); ownership bijection and unique-sentinel aliasing checked after every operation",
+    "Every stock case is taken apart into device rows and rebuilt through System.add in file, reversed, model-shuffled or fully interleaved "
+    "order with per-group numeric<->string index re-typing applied consistently to every reference. After each lifecycle operation (both "
+    "addressing phases, reset, snapshot save/load) the reference checker verifies that every internal variable of every device owns exactly "
+    "one slot, all slots are owned, slot names name the owner, and - with a unique sentinel in every slot - reads through the model, Model.get, "
+    "Group.get and every external link return the sentinel of the slot of the device named by the index field. The rebuilt system must solve "
+    "to the stock file's bus voltages.",
+    "Trusted: device rows read from the loaded stock file; naming convention for index parameters that do not declare their target; "
+    "event/output devices are not rebuilt.", "DESIGN.md section 4, C10")
+
 ENGINES = [
     {"name": "tds-sim", "path": "dst/tdssim.py", "kind_free_text": "real TDS loop under StepTap/SolverTap/TimerTap/StoreTap/ConnTap "
      "seams with seeded plans (events, segments, restarts, solver/disk/clock faults, crash points)", "serves_properties": []},
